@@ -1,5 +1,7 @@
 package vstore
 
+import "slices"
+
 // Harness-side editors (not journaled): what a login UI / device approval page
 // writes into the stored request besides "done" — authentication time, amr, acr,
 // additional audiences. Additive helpers (first used by C06); they change nothing
@@ -40,5 +42,19 @@ func (s *Store) PublishedKeys() []string {
 	for i, k := range s.pubKeys {
 		out[i] = k.Kid + "/" + string(k.Alg)
 	}
+	return out
+}
+
+// CodesOf returns the authorization codes currently stored for an auth request (harness-side view).
+func (s *Store) CodesOf(reqID string) []string {
+	s.mu.Lock()
+	defer s.mu.Unlock()
+	var out []string
+	for c, id := range s.codes {
+		if id == reqID {
+			out = append(out, c)
+		}
+	}
+	slices.Sort(out)
 	return out
 }
